@@ -132,7 +132,7 @@ def run(rep, tier, seed):
             exp = G.dump_edit(G.canon_edit(m['items']))
             oracle(o == exp, k, line, o, exp)
         elif k in ('import_garbage', 'roundtrip_garbage'):
-            check_import(oracle, k, line, o, m['enc'])
+            check_import(oracle, k, line, o)
     for i in (len(ecases) // 3, len(ecases) // 2):
         rep.sample({'case': ecases[i][0]})
 
@@ -151,7 +151,7 @@ def run(rep, tier, seed):
         elif k == 'hdr_built':
             oracle(o == '%x %x' % (m['seq'], m['n']), k, line, o)
         elif k in ('iter_cut', 'iter_count', 'iter_alter', 'iter_tail', 'iter_garbage'):
-            okk, ops = G.batch_decode(m['img'])
+            okk, ops = G.batch_decode(unhx(line.split(' ')[1]))
             exp = ('ok ' if okk else 'corrupt ') + G.ops_arg(ops)
             oracle(o == exp, k, line, o, exp)
         elif k == 'setseq':
@@ -172,7 +172,7 @@ def run(rep, tier, seed):
             exp = hx(m['enc']) if m['valid'] else 'fail'
             oracle(o == exp, 'export-import-export', line, o, exp)
         elif k.startswith('import_') or k.startswith('roundtrip_'):
-            check_import(oracle, k, line, o, m['enc'])
+            check_import(oracle, k, line, o)
 
     rep.cov['rule'] = ('stage 1: varint32/64 write/size/read at every 7-bit boundary, truncated and over-long encodings; file names from '
                        'every constructor at boundary numbers, mutated and overflowing numbers; user/internal key comparisons, separators, '
@@ -193,8 +193,8 @@ def shuffle(rng, l):
     for i in range(len(l) - 1, 0, -1):
         j = rng.below(i + 1); l[i], l[j] = l[j], l[i]
 
-def check_import(oracle, k, line, o, enc):
-    e = G.decode_edit(enc)
+def check_import(oracle, k, line, o):
+    e = G.decode_edit(unhx(line.split(' ')[1]))
     if k.startswith('import'):
         exp = 'fail' if e is None else G.dump_edit(e)
     else:
